@@ -10,6 +10,12 @@ and `get_object_status` are observed.  The Lean model receives the four pass/fai
 layout, counts, errors, summaries, rates, confusion matrix and tallies.  The oracle states the property on
 the real outputs with references recomputed from the generated scene, independent of the model.
 
+Selections: for every selection the selected table itself is observed (pair indices, counts over it, row-wise keyword counts).
+The model must select the same pairs (`PEval.Analyzer.selectTable`); the oracle evaluates the documented pair predicate on the
+generated scene (every given keyword carried by SOME row of the pair; SOME row with d0 <= ego-frame distance < d1, exact rational
+arithmetic, undecided within 1e-6 of a bound in the map frame) and demands that the selected table holds exactly those pairs, whole
+and in order, and that counts, paired rows, the confusion-matrix total and the error summaries are those of the selected items.
+
 Known findings (the model reproduces them, the oracle fails on them, `known_finding` recognises exactly
 the characterised deviation): F11 (double count of an ordinary GT paired with a failing estimate), N1
 (per-label TP rate above one when TP pairs have different labels), N2 (`num_*` raise TypeError on an empty
@@ -39,6 +45,14 @@ RULE = (
     "the manager filter (x/y or distance ranges); 1/3/9 area divisions; objects exactly on area / distance boundaries "
     "(BASE_LINK); 4..7 selections per case (label, scene, frame, area, status, uuid, distance, combinations, inverted "
     "distance); flavours: plain (F11 frequent), no_f11, n1 (TP pairs with different labels, finding N1), empty (finding N2); "
+    "the class SELECTIONS (2 extra selections per case, 6..8 in the flavour 'distance' whose row pairs have EXACT ego-frame distances "
+    "c*m/8 on Pythagorean rays): distance ranges placed relative to one likely row pair - strictly between its two rows (the pair "
+    "straddles the range on both sides), with a bound ON a row's distance (lower inclusive, upper exclusive), holding only one row, "
+    "both, just beside; keywords carried by ONE row of a pair only (label of a wrong-label / unknown estimate, uuid of either row); "
+    "empty selections (absent label / uuid / scene / frame / area, empty list, far range); combinations of 2..4 keywords read off one "
+    "likely pair (non-empty) or drawn independently; every entry point: analyze(**kw), get(**kw) / filter(**kw) + "
+    "filter_by_distance(range, df) / filter_by_distance(range) + summarize_ratio / summarize_error / get_confusion_matrix / "
+    "get_pair_results / get_num_*(df=selection) / get_num_*(**kw); the range as tuple / list / ndarray / ints; "
     "a case is non-trivial when its table has at least one row; distinct = distinct canonical case; "
     "first of all the witness inputs of the decision tables (kinds 'area', 'rows'): concrete inputs realising the valuations on which "
     "the code's regenerated table and the model's skeleton differ (none on an unchanged source)"
@@ -57,6 +71,9 @@ THEOREMS = [
         "confusion_sum", "confusion_none_iff",
         "area_idx_unique", "area_idx_inside",
         "num_props_empty",
+        # selections: which sub-table, what the pair predicate says, counts over a selection = counts of the selected items
+        "selection_exact", "selection_predicate", "selection_counts", "selection_confusion_sum", "selection_counts_whole",
+        "example_straddle",
         # decision tables extracted from the real code (harness/dt_c19.py), regenerated on every run
         "analyzer_table_check", "analyzer_code_table_eq_model", "area_code_table_eq_getAreaIdx", "table_area_spec",
         "table_on_grid_line", "rows_code_table_eq_model", "table_rows_per_item", "table_rows_examples",
@@ -80,6 +97,9 @@ ASSUMPTIONS = [
     "pass/fail target labels are those of the config (a paired row with a label outside target_labels+unknown makes get_confusion_matrix raise ValueError: outside the property's domain, reported as N3)",
     "add_frame is exercised through add() (a direct call raises KeyError because add() creates the transforms entry)",
     "analyze() on an empty table with keyword selections is not exercised",
+    "get_num_*(df=<empty selection of a non-empty table>) raises KeyError in the unchanged library; analyze() never calls them there (it returns "
+    "the empty result first), so counts over a selection are observed for non-empty selections only",
+    "a distance bound closer than 1e-6 (map frame; 1e-9 in BASE_LINK unless exactly equal) to a row's distance leaves that row undecided in the oracle",
     "evaluation_task fp_validation is not exercised (the manager cannot load the sample dataset for it); FP-labelled ground truths are exercised under detection/tracking",
 ]
 
@@ -276,30 +296,94 @@ def _sel_kwargs(sel):
     return kw
 
 
+def _dist_arg(sel, dist):
+    """the distance range in the form the selection asks for (the parameter is an `Iterable[float]`)"""
+    form = sel.get("dform", "tuple")
+    if form == "list":
+        return [dist[0], dist[1]]
+    if form == "array":
+        import numpy as np
+
+        return np.array([dist[0], dist[1]])
+    if form == "int" and float(dist[0]).is_integer() and float(dist[1]).is_integer():
+        return (int(dist[0]), int(dist[1]))
+    return (dist[0], dist[1])
+
+
+def _select(an, sel):
+    """the selected table through the public selection entry points: get(**kw) / filter(**kw), then filter_by_distance"""
+    kw = _sel_kwargs(sel)
+    dist = kw.pop("distance", None)
+    if sel.get("mode") == "filter":
+        if dist is not None and not kw:
+            return an.filter_by_distance(_dist_arg(sel, dist))  # df=None: the whole table
+        df = an.filter(**kw)
+    else:
+        df = an.get(**kw)
+    if dist is not None:
+        df = an.filter_by_distance(_dist_arg(sel, dist), df)
+    return df
+
+
+def _sel_table(an, sel, df, table_empty):
+    """what was selected: the pair indices (in order), whether pairs are whole, counts on the selection"""
+    idx = list(df.index)
+    whole = len(idx) % 2 == 0
+    index = []
+    for k in range(0, len(idx) - 1, 2):
+        (i0, s0), (i1, s1) = idx[k], idx[k + 1]
+        if i0 != i1 or s0 != "ground_truth" or s1 != "estimation":
+            whole = False
+        index.append(int(i0))
+    d = {"index": index, "whole_pairs": whole}
+    if len(df) > 0 and whole:
+        # (the num_* getters raise KeyError on an EMPTY selection; analyze() never calls them there)
+        num = {}
+        for k, f in (("gt", an.get_num_ground_truth), ("est", an.get_num_estimation), ("tp", an.get_num_tp), ("fp", an.get_num_fp),
+                     ("tn", an.get_num_tn), ("fn", an.get_num_fn)):
+            try:
+                num[k] = int(f(df=df))
+            except Exception as e:
+                num[k] = {"err": type(e).__name__}
+        d["num"] = num
+        try:
+            g, _e = an.get_pair_results(df)
+            d["paired"] = 0 if g is None else int(len(g))
+        except Exception as e:
+            d["paired"] = {"err": type(e).__name__}
+    kw = _sel_kwargs(sel)
+    kw.pop("distance", None)
+    if kw and not table_empty:
+        rw = {}
+        for k, f in (("gt", an.get_num_ground_truth), ("est", an.get_num_estimation), ("tp", an.get_num_tp), ("fp", an.get_num_fp),
+                     ("tn", an.get_num_tn), ("fn", an.get_num_fn)):
+            try:
+                rw[k] = int(f(**kw))
+            except Exception as e:
+                rw[k] = {"err": type(e).__name__}
+        d["rowwise"] = rw
+    return d
+
+
 def _analysis(an, sel, labels):
-    """one selection through the real analyzer; 'mode' analyze = analyze(), parts = the public pieces"""
+    """one selection through the real analyzer; 'mode' analyze = analyze(), parts / filter = the public pieces"""
     import numpy as np
 
     kw = _sel_kwargs(sel)
+    seld = None
     try:
+        df = _select(an, sel)
+        seld = _sel_table(an, sel, df, len(an.df) == 0)
         if sel.get("mode", "analyze") == "analyze":
+            if "distance" in kw:
+                kw["distance"] = _dist_arg(sel, kw["distance"])
             res = an.analyze(**kw)
             if res.score is None:
-                return {"none": True}
+                return {"none": True, "sel": seld}
             ratio_df, err_df, cm_df = res.score, res.error, res.confusion_matrix
-            kw2 = dict(kw)
-            dist = kw2.pop("distance", None)
-            df = an.get(**kw2)
-            if dist is not None:
-                df = an.filter_by_distance(dist, df)
         else:
-            kw2 = dict(kw)
-            dist = kw2.pop("distance", None)
-            df = an.get(**kw2)
-            if dist is not None:
-                df = an.filter_by_distance(dist, df)
             if len(df) == 0:
-                return {"none": True}
+                return {"none": True, "sel": seld}
             ratio_df = an.summarize_ratio(df=df)
             err_df = an.summarize_error(df=df)
             cm_df = an.get_confusion_matrix(df=df)
@@ -320,10 +404,10 @@ def _analysis(an, sel, labels):
     # the selected table, for the oracle (number of paired rows)
     recs = df.to_dict("records")
     paired = 0
-    for k in range(0, len(recs), 2):
+    for k in range(0, len(recs) - 1, 2):
         if _cell(recs[k]) is not None and _cell(recs[k + 1]) is not None:
             paired += 1
-    return {"ratio": ratio, "error": error, "cm": cm, "cm_labels": cm_labels, "paired_rows": paired, "n_rows": len(recs)}
+    return {"ratio": ratio, "error": error, "cm": cm, "cm_labels": cm_labels, "paired_rows": paired, "n_rows": len(recs), "sel": seld}
 
 
 def _status(frames):
@@ -601,6 +685,20 @@ def compare(case, out, resps):
             if a.get("err") != b.get("err"):
                 return f"{tag}: impl {a.get('err', 'ok')} != model {b.get('err', 'ok')}"
             continue
+        # the selected sub-table itself: which pairs, counts over it, row-wise keyword counts
+        ms = (r.get("selections") or [None] * len(out["analyses"]))[i]
+        sa = a.get("sel")
+        if ms is not None and sa is not None and "err" not in ms:
+            if not sa["whole_pairs"]:
+                return f"{tag}: the selected table splits a row pair (index {sa['index']})"
+            if sa["index"] != ms["index"]:
+                return f"{tag}: selected row pairs impl {sa['index']} != model {ms['index']}"
+            if "num" in sa and sa["num"] != ms["num"]:
+                return f"{tag}: counts over the selection impl {sa['num']} != model {ms['num']}"
+            if "paired" in sa and sa["paired"] != ms["paired"]:
+                return f"{tag}: paired rows of the selection impl {sa['paired']} != model {ms['paired']}"
+            if "rowwise" in sa and sa["rowwise"] != ms["rowwise"]:
+                return f"{tag}: row-wise keyword counts impl {sa['rowwise']} != model {ms['rowwise']}"
         if a.get("none") or b.get("none"):
             if bool(a.get("none")) != bool(b.get("none")):
                 return f"{tag}: impl none={a.get('none')} model none={b.get('none')}"
@@ -668,6 +766,113 @@ def _summ(errs):
             "max": max(abs(e) for e in errs), "min": min(abs(e) for e in errs)}
 
 
+def _items(case, out):
+    """the row pairs the frames' pass/fail lists ask for, in table order: (status, gt object | None, estimate | None, scene, frame)"""
+    items = []
+    for si, (sc_case, sc_out) in enumerate(zip(case["scenes"], out["frames"])):
+        for fr, l in zip(sc_case, sc_out):
+            objs = _objs_of(fr)
+            for e, g in l["tp"]:
+                items.append(("TP", None if g is None else objs[g], objs[e], si, l["n"]))
+            for e, g in l["fp"]:
+                items.append(("FP", None if g is None else objs[g], objs[e], si, l["n"]))
+            for g in l["tn"]:
+                items.append(("TN", objs[g], None, si, l["n"]))
+            for g in l["fn"]:
+                items.append(("FN", objs[g], None, si, l["n"]))
+    return items
+
+
+def _vals(v):
+    return list(v) if isinstance(v, (list, tuple)) else [v]
+
+
+def _dist2(o):
+    return Fraction(o["x"]) ** 2 + Fraction(o["y"]) ** 2
+
+
+def _in_range(o, dist, map_frame):
+    """does the ego-frame distance of the object lie in [d0, d1)?  True / False / None = too close to a bound for the
+    floats of the real code to be trusted (map frame: positions go through a float round trip)"""
+    d0, d1 = Fraction(dist[0]), Fraction(dist[1])
+    d2 = _dist2(o)
+    r = math.sqrt(d2)
+    for b in (d0, d1):
+        if b >= 0:
+            exact = d2 == b * b
+            if (exact and map_frame) or (not exact and abs(r - float(b)) < (1e-6 if map_frame else 1e-9)):
+                return None
+    return (d0 <= 0 or d0 * d0 <= d2) and (d1 > 0 and d2 < d1 * d1)
+
+
+def _row_area(out, k):
+    row = out["rows"][k]
+    c = row[5] if row[5] is not None else row[2]
+    return None if c is None else c["area"]
+
+
+def _key_hit(key, vals, st, o, si, n, area):
+    """does ONE row (object o of an item with status st in scene si, frame n, area) carry one of the values of a keyword?"""
+    if key == "label":
+        return o["l"] in vals
+    if key == "uuid":
+        return o["u"] in vals
+    if key == "status":
+        return st in vals
+    if key == "scene":
+        return si in vals
+    if key == "frame":
+        return n in vals
+    if key == "area":
+        return area is not None and area in vals
+    raise KeyError(key)
+
+
+def _ref_select(case, out, sel, items):
+    """the documented pair predicate, evaluated on the generated scene: a pair is selected iff every given keyword is carried
+    by SOME row of the pair and (distance given) SOME row lies in [d0, d1) -> (indices surely selected, indices undecidable)"""
+    kw = _sel_kwargs(sel)
+    dist = kw.pop("distance", None)
+    map_frame = case["frame_id"] == "map"
+    sure, unsure = [], []
+    for k, (st, g, e, si, n) in enumerate(items):
+        cells = [o for o in (g, e) if o is not None]
+        area = _row_area(out, k)
+        if not all(any(_key_hit(key, _vals(v), st, o, si, n, area) for o in cells) for key, v in kw.items()):
+            continue
+        if dist is None:
+            sure.append(k)
+            continue
+        states = [_in_range(o, dist, map_frame) for o in cells]
+        if any(x is True for x in states):
+            sure.append(k)
+        elif any(x is None for x in states):
+            unsure.append(k)
+    return sure, unsure
+
+
+def _ref_rowwise(case, out, sel, items):
+    """get_num_*(**kwargs): the ROWS (not pairs) that carry every keyword"""
+    kw = _sel_kwargs(sel)
+    kw.pop("distance", None)
+    cnt = {"est": 0, "tp": 0, "fp": 0, "tn": 0, "fn": 0}
+    for k, (st, g, e, si, n) in enumerate(items):
+        area = _row_area(out, k)
+        if e is not None and all(_key_hit(key, _vals(v), st, e, si, n, area) for key, v in kw.items()):
+            cnt["est"] += 1
+            if st in ("TP", "FP"):
+                cnt[st.lower()] += 1
+        if g is not None and st in ("TN", "FN") and all(_key_hit(key, _vals(v), st, g, si, n, area) for key, v in kw.items()):
+            cnt[st.lower()] += 1
+    return cnt
+
+
+def _describe(items, k):
+    st, g, e, si, n = items[k]
+    f = lambda o: "-" if o is None else f"{o['u']}@{math.sqrt(_dist2(o)):.4f}m/{o['l']}"  # noqa: E731
+    return f"pair {k} ({st}, scene {si}, frame {n}: ground truth {f(g)}, estimate {f(e)})"
+
+
 def _check(case, out):
     """the property statement on the real outputs -> list of (tag, info, message)"""
     fails = []
@@ -725,13 +930,59 @@ def _check(case, out):
                               f"num_ground_truth = {v}, critical ground truths = {want[k]} (FP results carrying an ordinary GT: {len(f11_pairs)})"))
             else:
                 fails.append(("counts", None, f"num_{k} = {v}, pass/fail lists give {want[k]}"))
-    # --- analyses
+    # --- analyses: every selection must be exactly the row pairs satisfying the documented predicate, and the statement
+    #     about counts / errors / confusion matrix must hold for the selected sub-table
+    layout_ok = not any(f[0] == "layout" for f in fails)
+    items_l = _items(case, out) if layout_ok else None
     for i, (sel, a) in enumerate(zip(case["sels"], out["analyses"])):
         tag = f"selection {i} {sel}"
         if "err" in a:
             if not (a["err"] == "AssertionError" and sel.get("distance") is not None and sel["distance"][0] >= sel["distance"][1]):
                 fails.append(("exception", None, f"{tag}: raised {a['err']}"))
             continue
+        sa = a.get("sel")
+        K = None
+        if layout_ok and sa is not None:
+            sure, unsure = _ref_select(case, out, sel, items_l)
+            got = sa["index"]
+            if not sa["whole_pairs"]:
+                fails.append(("selection", None, f"{tag}: the selected table splits a row pair (rows of pairs {got})"))
+            elif sorted(set(got)) != got or not set(sure) <= set(got) or not set(got) <= set(sure) | set(unsure):
+                extra = sorted(set(got) - set(sure) - set(unsure))
+                missing = sorted(set(sure) - set(got))
+                msg = f"{tag}: selected row pairs {got}, the pairs satisfying the selection are {sure}"
+                if extra:
+                    msg += f"; wrongly kept: {_describe(items_l, extra[0])}" if extra[0] < len(items_l) else f"; wrongly kept index {extra[0]}"
+                if missing:
+                    msg += f"; wrongly dropped: {_describe(items_l, missing[0])}"
+                fails.append(("selection", None, msg))
+            else:
+                K = got
+            if a.get("none") and sure:
+                fails.append(("selection", None, f"{tag}: nothing to analyse although {len(sure)} row pairs satisfy the selection"))
+            if K is not None and not a.get("none") and not K:
+                fails.append(("selection", None, f"{tag}: a result is reported although no row pair is selected"))
+            if "rowwise" in sa:
+                want_rw = _ref_rowwise(case, out, sel, items_l)
+                for key, w in want_rw.items():
+                    v = sa["rowwise"][key]
+                    if isinstance(v, dict):
+                        fails.append(("exception", None, f"{tag}: get_num_{key}(**selection) raised {v['err']}"))
+                    elif v != w:
+                        fails.append(("sel_counts", None, f"{tag}: get_num_{key}(**selection) = {v}, the pass/fail lists hold {w} such rows"))
+        if K is not None and "num" in sa:
+            sts = [items_l[k][0] for k in K]
+            want_n = {"tp": sts.count("TP"), "fp": sts.count("FP"), "tn": sts.count("TN"), "fn": sts.count("FN")}
+            want_n["est"] = want_n["tp"] + want_n["fp"]
+            for key, w in want_n.items():
+                v = sa["num"][key]
+                if isinstance(v, dict):
+                    fails.append(("exception", None, f"{tag}: get_num_{key}(df=selection) raised {v['err']}"))
+                elif v != w:
+                    fails.append(("sel_counts", None, f"{tag}: {key} count over the selection = {v}, the selected items of the pass/fail lists give {w}"))
+            pw = sum(1 for k in K if items_l[k][1] is not None and items_l[k][2] is not None)
+            if sa.get("paired") != pw:
+                fails.append(("sel_counts", None, f"{tag}: get_pair_results gives {sa.get('paired')} paired rows, the selected items {pw}"))
         if a.get("none"):
             if not _sel_kwargs(sel) and items > 0:
                 fails.append(("layout", None, f"{tag}: nothing to analyse although the table has {items} items"))
@@ -751,17 +1002,12 @@ def _check(case, out):
             y = cols["yaw"]
             if y is not None and y["max"] > PI + 1e-9:
                 fails.append(("yaw_range", None, f"{tag}: yaw error {l} max {y['max']} > pi"))
-        # reference recomputation from the generated scene (no selection, and plain label selections)
-        if not _sel_kwargs(sel):
-            pairs = []
-            for si, fr, l in frames:
-                objs = _objs_of(fr)
-                for e, g in l["tp"] + l["fp"]:
-                    if g is not None:
-                        pairs.append((objs[g], objs[e]))
+        # reference recomputation from the generated scene, on the selected items
+        if K is not None:
+            pairs = [(items_l[k][1], items_l[k][2]) for k in K if items_l[k][1] is not None and items_l[k][2] is not None]
             tot_pairs = len(pairs)
-            if a["paired_rows"] != tot_pairs or (a["cm"] is not None and sum(sum(r) for r in a["cm"]) != tot_pairs):
-                fails.append(("cm_sum", None, f"{tag}: paired rows {a['paired_rows']} / matrix total, frames have {tot_pairs} paired results"))
+            if a["paired_rows"] != tot_pairs or (a["cm"] is not None and sum(sum(r) for r in a["cm"]) != tot_pairs) or (a["cm"] is None and tot_pairs):
+                fails.append(("cm_sum", None, f"{tag}: paired rows {a['paired_rows']} / matrix total, the selected items hold {tot_pairs} paired results"))
             for lab in ["ALL"] + case["labels"]:
                 ps = [p for p in pairs if lab == "ALL" or p[0]["l"] == lab]
                 for c in COLS:
@@ -1028,7 +1274,180 @@ def _gen_sels(rng, case, n_sel):
             s["distance"][1] += 5.0
         s["mode"] = "analyze" if k == 0 else "parts"
         sels.append(s)
-    return sels
+    return sels + _selection_class_sels(rng, case, 2)
+
+
+# ----- the class "selections": ranges narrower than a pair's separation, bounds on a row's distance, empty selections,
+#       selections that split pairs (a keyword carried by one row only), combinations, every entry point / argument form
+
+def _is_square(fr):
+    """is the non-negative Fraction the square of a rational?"""
+    n, d = fr.numerator, fr.denominator
+    return math.isqrt(n) ** 2 == n and math.isqrt(d) ** 2 == d
+
+
+def _root(fr):
+    return Fraction(math.isqrt(fr.numerator), math.isqrt(fr.denominator))
+
+
+def _case_pairs(case):
+    """(frame, ground truth, estimate) for every estimate within 7 m of a ground truth of its frame (the likely row pairs)"""
+    ps = []
+    for si, sc in enumerate(case["scenes"]):
+        for fr in sc:
+            for e in fr["ests"]:
+                near = [g for g in fr["gts"] if (g["x"] - e["x"]) ** 2 + (g["y"] - e["y"]) ** 2 <= 49.0]
+                if near:
+                    g = min(near, key=lambda g: (g["x"] - e["x"]) ** 2 + (g["y"] - e["y"]) ** 2)
+                    ps.append((si, fr, g, e))
+    return ps
+
+
+def _all_dist2(case):
+    return sorted({_dist2(o) for sc in case["scenes"] for fr in sc for o in fr["gts"] + fr["ests"]})
+
+
+def _safe_bound(b, d2s, exact_ok):
+    """a bound on the 1/64 grid that is either exactly a row's distance (exact_ok) or at least 1/512 away from every row's"""
+    b = Fraction(round(b * 64), 64)
+    if b < 0:
+        b = Fraction(0)
+    for _ in range(40):
+        clash = False
+        for d2 in d2s:
+            if d2 == b * b:
+                if exact_ok:
+                    return b
+                clash = True
+                break
+            if abs(math.sqrt(d2) - float(b)) < 1.0 / 512:
+                clash = True
+                break
+        if not clash:
+            return b
+        b += Fraction(1, 256)
+    return b
+
+
+def _narrow_distance(rng, case, pair=None):
+    """a distance range placed relative to ONE likely row pair: strictly between its two rows (straddled on both sides), on a
+    row's distance (inclusive lower / exclusive upper bound), holding only one of the rows, holding both, just beside"""
+    ps = _case_pairs(case)
+    d2s = _all_dist2(case)
+    if not ps:
+        return {"distance": [float(rng.choice([0, 3, 17])), float(rng.choice([18.5, 19, 33]))]}
+    _si, fr, g, e = pair or rng.choice(ps)
+    a2, b2 = sorted([_dist2(g), _dist2(e)])
+    lo, hi = Fraction(math.sqrt(a2)), Fraction(math.sqrt(b2))
+    if _is_square(a2):
+        lo = _root(a2)
+    if _is_square(b2):
+        hi = _root(b2)
+    w = Fraction(rng.choice([1, 2, 4, 8, 24]), 8)
+    gap = hi - lo
+    shape = rng.choice(["between", "between", "lo..hi", "..lo", "hi..", "lo..", "..hi", "both", "beside", "only-lo", "only-hi"])
+    exact = True
+    if shape == "between":
+        d0, d1, exact = lo + gap / 4, hi - gap / 4, False
+    elif shape == "lo..hi":
+        d0, d1 = lo, hi
+    elif shape == "..lo":
+        d0, d1 = lo - w, lo
+    elif shape == "hi..":
+        d0, d1 = hi, hi + w
+    elif shape == "lo..":
+        d0, d1 = lo, lo + min(w, gap / 2 if gap > 0 else w)
+    elif shape == "..hi":
+        d0, d1 = hi - min(w, gap / 2 if gap > 0 else w), hi
+    elif shape == "both":
+        d0, d1, exact = lo - w, hi + w, False
+    elif shape == "beside":
+        d0, d1, exact = hi + Fraction(1, 16), hi + Fraction(1, 16) + w, False
+    elif shape == "only-lo":
+        d0, d1, exact = lo - w, lo + gap / 2, False
+    else:
+        d0, d1, exact = lo + gap / 2, hi + w, False
+    d0, d1 = _safe_bound(d0, d2s, exact), _safe_bound(d1, d2s, exact)
+    if d1 <= d0:
+        d1 = _safe_bound(d0 + Fraction(1, 32), d2s, False)
+    if d1 <= d0:
+        d1 = d0 + 1
+    return {"distance": [float(d0), float(d1)], "shape": shape}
+
+
+def _selection_class_sels(rng, case, k):
+    labels = case["labels"]
+    nsc = len(case["scenes"])
+    fnums = sorted({fr["n"] for sc in case["scenes"] for fr in sc}) or [0]
+    ps = _case_pairs(case)
+    objs = [o for sc in case["scenes"] for fr in sc for o in fr["gts"] + fr["ests"]]
+
+    def one_row_label():
+        """a label carried by ONE row of some pair only (wrong-label FP, unknown / any-label TP): the pair must be kept whole"""
+        mixed = [(g, e) for _, _, g, e in ps if g["l"] != e["l"]]
+        if mixed:
+            g, e = rng.choice(mixed)
+            return {"label": rng.choice([g["l"], e["l"], [e["l"]]])}
+        return {"label": rng.choice(labels + ["unknown"])}
+
+    def one_row_uuid():
+        if ps:
+            _, _, g, e = rng.choice(ps)
+            return {"uuid": rng.choice([g["u"], e["u"], [g["u"], "nobody"], [e["u"]]])}
+        return {"uuid": rng.choice(objs)["u"] if objs else "nobody"}
+
+    def empty():
+        return rng.choice([
+            {"label": "animal"}, {"uuid": "nobody"}, {"distance": [500.0, 600.0]}, {"frame": max(fnums) + 7}, {"scene": nsc + 3},
+            {"status": "TP", "label": "animal"}, {"area": case["division"] + 2}, {"label": [], }, {"distance": [0.0, 0.0078125]},
+        ])
+
+    def combo():
+        s = {}
+        pair = rng.choice(ps) if ps and rng.random() < 0.6 else None  # keywords read off ONE likely row pair: a non-empty combination
+        for key in rng.sample(["label", "scene", "frame", "area", "status", "uuid", "distance"], rng.randint(2, 4)):
+            if pair is not None:
+                si, fr, g, e = pair
+                if key == "label":
+                    s["label"] = rng.choice([g["l"], e["l"], [g["l"], e["l"]]])
+                elif key == "scene":
+                    s["scene"] = rng.choice([si, [si], list(range(nsc))])
+                elif key == "frame":
+                    s["frame"] = rng.choice([fr["n"], [fr["n"]], fnums])
+                elif key == "area":
+                    s["area"] = list(range(case["division"]))
+                elif key == "status":
+                    s["status"] = rng.choice([["TP", "FP"], ["TP", "FP", "FN"]])
+                elif key == "uuid":
+                    s["uuid"] = rng.choice([g["u"], e["u"], [g["u"], e["u"]]])
+                else:
+                    s.update(_narrow_distance(rng, case, pair))
+                continue
+            if key == "label":
+                s.update(one_row_label() if rng.random() < 0.5 else {"label": rng.sample(labels, min(len(labels), rng.randint(1, 2)))})
+            elif key == "scene":
+                s["scene"] = rng.choice([rng.randrange(nsc), list(range(nsc))])
+            elif key == "frame":
+                s["frame"] = rng.choice([rng.choice(fnums), fnums[: max(1, len(fnums) // 2)], fnums])
+            elif key == "area":
+                s["area"] = rng.choice([rng.randrange(case["division"]), list(range(case["division"]))])
+            elif key == "status":
+                s["status"] = rng.choice(["TP", "FP", "FN", ["TP", "FP"], ["TP", "FN"], ["FP", "FN", "TN"]])
+            elif key == "uuid":
+                s.update(one_row_uuid())
+            else:
+                s.update(_narrow_distance(rng, case) if rng.random() < 0.6 else {"distance": [0.0, float(rng.choice([20, 35, 50, 80]))]})
+        return s
+
+    pool = [lambda: _narrow_distance(rng, case)] * 4 + [combo] * 3 + [one_row_label, one_row_uuid, empty]
+    out = []
+    for _ in range(k):
+        s = rng.choice(pool)()
+        s["mode"] = rng.choice(["analyze", "parts", "parts", "filter"])
+        if "distance" in s:
+            s["dform"] = rng.choice(["tuple", "tuple", "list", "array", "int"])
+        out.append(s)
+    return out
 
 
 def _gen_case(rng, flavour="plain"):
@@ -1107,6 +1526,64 @@ def _boundary_case(rng):
     return case
 
 
+RAYS = [(3, 4, 5), (4, 3, 5), (5, 12, 13), (12, 5, 13), (8, 15, 17), (15, 8, 17), (7, 24, 25), (24, 7, 25), (20, 21, 29), (21, 20, 29),
+        (1, 0, 1), (0, 1, 1)]
+
+
+def _distance_case(rng):
+    """row pairs whose two rows have EXACT ego-frame distances (positions on rays of Pythagorean directions, c*m/8 metres from
+    the ego), separated by 1/8 .. 4.5 m, with distance ranges placed on / between those distances"""
+    for _ in range(12):
+        case = _gen_case(rng, rng.choice(["plain", "plain", "no_f11"]))
+        if len(_case_pairs(case)) >= 4:
+            break
+    case["flavour"] = "distance"
+    if rng.random() < 0.75:
+        case["frame_id"] = "base_link"
+    case["range"] = {"kind": "xy", "max_x": 96.0, "max_y": 96.0}
+    case["crit"] = {"kind": "xy", "x": 96.0, "y": 96.0}
+    for sc in case["scenes"]:
+        for fr in sc:
+            if case["frame_id"] == "base_link":
+                fr.pop("ego", None)
+            elif "ego" not in fr:
+                fr["ego"] = [core.dyadic(rng, -2000, 2000, 4), core.dyadic(rng, -2000, 2000, 4), rng.randint(-15, 16)]
+            placed = []
+            byid = {}
+            for i, g in enumerate(fr["gts"]):
+                for _ in range(60):
+                    a, b, c = rng.choice(RAYS)
+                    sa, sb = rng.choice([-1, 1]), rng.choice([-1, 1])
+                    m = rng.randint(max(8, (8 * 8) // c), (8 * 88) // c)
+                    x, y = sa * a * m / 8.0, sb * b * m / 8.0
+                    if abs(x) < 94 and abs(y) < 94 and all((x - px) ** 2 + (y - py) ** 2 >= 144.0 for px, py in placed):
+                        break
+                placed.append((x, y))
+                dx, dy = x - g["x"], y - g["y"]
+                g["x"], g["y"] = x, y
+                byid[i] = (g, a, b, c, sa, sb, m, dx, dy)
+            for e in fr["ests"]:
+                tail = e["u"].split("_")[-1]
+                if tail.startswith("x") or not tail.isdigit() or int(tail) not in byid:
+                    continue
+                g, a, b, c, sa, sb, m, dx, dy = byid[int(tail)]
+                if rng.random() < 0.65:
+                    dm = rng.choice([-1, 1]) * rng.randint(1, max(1, min(m - 1, (36 // c))))
+                    e["x"], e["y"] = sa * a * (m + dm) / 8.0, sb * b * (m + dm) / 8.0
+                else:
+                    e["x"], e["y"] = e["x"] + dx, e["y"] + dy
+    sels = [{"mode": "analyze"}]
+    for k in range(rng.randint(5, 7)):
+        sl = _narrow_distance(rng, case)
+        if rng.random() < 0.3:
+            sl.update(rng.choice([{"status": ["TP", "FP"]}, {"label": rng.choice(case["labels"])}, {"scene": 0}, {"area": list(range(case["division"]))}]))
+        sl["mode"] = rng.choice(["analyze", "parts", "filter"])
+        sl["dform"] = rng.choice(["tuple", "tuple", "list", "array", "int"])
+        sels.append(sl)
+    case["sels"] = sels + _selection_class_sels(rng, case, 1)
+    return case
+
+
 def _empty_case(rng, with_frames):
     case = _gen_case(rng, "no_f11")
     case["flavour"] = "empty"
@@ -1161,10 +1638,12 @@ def generate(rng, tier):
     cases = table_witness_cases()
     for i in range(n):
         r = i % 23
-        if r % 2 == 1 and r not in (7, 13, 17):
+        if r % 2 == 1 and r not in (3, 7, 13, 17, 19):
             cases.append(_gen_case(rng, "no_f11"))
         elif r == 7:
             cases.append(_boundary_case(rng))
+        elif r in (3, 10, 19):
+            cases.append(_distance_case(rng))
         elif r == 13:
             cases.append(_gen_case(rng, "n1"))
         elif r == 17 and (i // 23) % 3 == 0:
@@ -1230,10 +1709,43 @@ def branches(case, out):
             if c is not None and c["area"] is None:
                 b.append("area:None")
                 break
+    try:
+        items_l = _items(case, out)
+    except Exception:  # noqa: BLE001
+        items_l = []
     for sel, a in zip(case["sels"], out["analyses"]):
         keys = "+".join(sorted(k for k in _sel_kwargs(sel))) or "all"
         res = "err:" + a["err"] if "err" in a else "none" if a.get("none") else "ok"
         b.append(f"sel:{keys}:{res}")
+        b.append(f"sel-mode:{sel.get('mode', 'analyze')}")
+        kw = _sel_kwargs(sel)
+        if len(kw) >= 2:
+            b.append(f"sel-class:combination-of-{min(len(kw), 4)}")
+        if a.get("sel") is not None and not a["sel"]["index"] and kw:
+            b.append("sel-class:empty-selection")
+        if "distance" in kw:
+            b.append(f"sel-dform:{sel.get('dform', 'tuple')}")
+            d0, d1 = Fraction(kw["distance"][0]), Fraction(kw["distance"][1])
+            if d0 < d1:
+                for st, g, e, si, n in items_l:
+                    ds = [_dist2(o) for o in (g, e) if o is not None]
+                    if any(d == d0 * d0 for d in ds):
+                        b.append("sel-class:row-on-lower-bound")
+                    if any(d == d1 * d1 for d in ds):
+                        b.append("sel-class:row-on-upper-bound")
+                    if len(ds) == 2:
+                        lo, hi = min(ds), max(ds)
+                        if lo < d0 * d0 and hi >= d1 * d1:
+                            b.append("sel-class:pair-straddles-range")
+                        ins = [(d0 <= 0 or d0 * d0 <= d) and d < d1 * d1 for d in ds]
+                        if ins[0] != ins[1]:
+                            b.append("sel-class:one-row-in-range")
+        for key in ("label", "uuid"):
+            if key in kw:
+                vals = _vals(kw[key])
+                f = "l" if key == "label" else "u"
+                if any(g is not None and e is not None and (g[f] in vals) != (e[f] in vals) for st, g, e, si, n in items_l):
+                    b.append(f"sel-class:{key}-on-one-row-of-a-pair")
         if "ratio" in a:
             b.append("cm:" + ("none" if a["cm"] is None else "some"))
             if any(v is None for v in a["error"]["ALL"].values()):
@@ -1291,4 +1803,4 @@ def area_probe_cases():
 
 
 def search(rng, st, disagreements):
-    return table_witness_cases() + area_probe_cases() + [_gen_case(rng, rng.choice(["plain", "plain", "no_f11", "n1"])) for _ in range(60)] + [_boundary_case(rng) for _ in range(10)]
+    return table_witness_cases() + area_probe_cases() + [_gen_case(rng, rng.choice(["plain", "plain", "no_f11", "n1"])) for _ in range(60)] + [_boundary_case(rng) for _ in range(10)] + [_distance_case(rng) for _ in range(25)]
